@@ -22,6 +22,7 @@ structure Acceptable (d : Def) (side : Side) (s : Store) (now : Nat) (vp : VP) (
   within : e ≤ now + d.maxValidity
   signer : ∃ m, vp.signer = some (subj, m) ∧ (d.didMethods = [] ∨ m ∈ d.didMethods)
   verifiable : vp.verdict side = true
+  available : s.verifierUp = true
   registration : vp.retraction = false →
     (∀ c ∈ vp.creds, ∀ ce, c.exp = some ce → e ≤ ce) ∧ vp.pex = .matched vp.creds.length
   retraction : vp.retraction = true →
